@@ -750,7 +750,8 @@ def check(prop, tier, seed):
         wall_s=round(wall, 2), violations=len(violations))
     os.makedirs(os.path.join(OUTROOT, 'evidence'), exist_ok=True)
     json.dump(ev, open(os.path.join(OUTROOT, 'evidence', prop + '.json'), 'w'), indent=1)
-    shutil.rmtree(workdir, ignore_errors=True)
+    if not os.environ.get("VERIF_KEEPWORK"):
+        shutil.rmtree(workdir, ignore_errors=True)
     for l in known_lines:
         log(l)
     if violations:
